@@ -129,10 +129,21 @@ pub fn build(c: &TraceCase) -> (Vec<SrcFile>, Vec<(String, u32, String)>, &'stat
         f.ln(&open);
         pads.emit(f, ind);
         if i + 1 == d {
-            // innermost: the failing statement
+            // innermost: the failing statement, either as the function's last expression or (for the
+            // value-producing failures) bound by a `let` that is followed by further lines, so that the
+            // failing instruction is the last one of its line and the next instruction belongs to another line
             f.ln(&format!("{ind}{}", fail_lines[0]));
             pads.emit(f, ind);
-            let l = f.ln(&format!("{ind}{}", fail_lines[1]));
+            let bind = c.failure % 5 != 3 && (c.failure / 5) % 2 == 1;
+            let l = if bind {
+                let l = f.ln(&format!("{ind}let q = {}", fail_lines[1]));
+                pads.emit(f, ind);
+                f.ln(&format!("{ind}let q2 = q + 1"));
+                f.ln(&format!("{ind}q2"));
+                l
+            } else {
+                f.ln(&format!("{ind}{}", fail_lines[1]))
+            };
             entries[i].push((fname.clone(), l, func_name.clone()));
         } else if frames[i] == 2 {
             f.ln(&format!("{ind}let lam = (k: int) -> {{"));
@@ -200,13 +211,13 @@ impl Prop for Tracebacks {
         "tracebacks"
     }
     fn rule(&self) -> &'static str {
-        "one case = a call chain of depth 1..6 through functions, member functions and lambdas spread over 1..3 files, padded with generated comments / blank lines / extra statements (optionally non-ASCII), ending in one failing statement (index out of bounds, division by zero, overflow, panic, `!` on none); run with the optimizer on and off and at budgets 1000 and 1; the rendered error must have the expected kind and its traceback (prelude frames dropped) must equal the generator's list of (file, line, function) innermost first ending in <main>; non-trivial = depth >= 2 and the failing line is not line 1; distinct by case"
+        "one case = a call chain of depth 1..6 through functions, member functions and lambdas spread over 1..3 files, padded with generated comments / blank lines / extra statements (optionally non-ASCII), ending in one failing statement (index out of bounds, division by zero, overflow, panic, `!` on none; as the function's last expression or bound by a `let` with further statements after it); run with the optimizer on and off and at budgets 1000 and 1; the rendered error must have the expected kind and its traceback (prelude frames dropped) must equal the generator's list of (file, line, function) innermost first ending in <main>; non-trivial = depth >= 2 and the failing line is not line 1; distinct by case"
     }
     fn n_cases(&self, tier: Tier) -> u32 {
         tier.pick(2500, 40000)
     }
     fn strategy(&self, _tier: Tier, _f: &Findings) -> BoxedStrategy<Self::Case> {
-        (proptest::collection::vec(0u8..3, 1..=6), 1u8..8, 1u8..8, 0u8..5, proptest::collection::vec(any::<u8>(), 0..40), any::<bool>())
+        (proptest::collection::vec(0u8..3, 1..=6), 1u8..8, 1u8..8, 0u8..10, proptest::collection::vec(any::<u8>(), 0..40), any::<bool>())
             .prop_map(|(frames, split1, split2, failure, pads, non_ascii)| TraceCase { frames, split1, split2, failure, pads, non_ascii })
             .boxed()
     }
